@@ -189,6 +189,9 @@ def _operands():
         ('nested', circ(0.0, 0.0, 5.25), rect(0.5, -0.25, 2.5, 2.5, 30.0)),
         ('nested', ell(0.0, 0.0, 11.0, 5.25, 123.4), circ(-1.0, 0.5, 0.75)),
         ('annulus_operand', ann, rect(3.0, 0.0, 5.25, 2.5, 0.0)),
+        # an operand too small to cover a pixel centre (for most phases): its mask is all zero, which matters for '&'
+        ('empty_mask_operand', circ(0.0, 0.0, 2.5), circ(0.5, 0.5, 0.1875)),
+        ('empty_mask_operand', rect(0.0, 0.0, 2.5, 5.25, 30.0), circ(6.5, 3.5, 0.1875)),
     ]
     inner = {'cls': 'compound', 'op': 'or', 'r1': circ(0.0, 0.0, 2.5), 'r2': rect(3.0, 1.0, 5.25, 0.75, 30.0)}
     pairs.append(('nested_compound', inner, ell(1.0, -2.0, 2.5, 11.0, 45.0)))
